@@ -1731,6 +1731,9 @@ class Scheduler:
             if job.recording_provenance():
                 self.backend.record_job_start(job)
 
+            # This job does not consume any resources. If it was nominated to run after waiting
+            # for resource limits, the resources set aside for it are free for other waiting jobs.
+            self._check_jobs_pending_limits()
             return
 
         # Check cache for job.
@@ -1756,6 +1759,10 @@ class Scheduler:
             # There's no work to do, but be sure we consider it started.
             if job.recording_provenance():
                 self.backend.record_job_start(job)
+
+            # A cached job does not consume any resources. If it was nominated to run after waiting
+            # for resource limits, the resources set aside for it are free for other waiting jobs.
+            self._check_jobs_pending_limits()
 
             # Trigger downstream steps, just like an executor would, upon completing it.
             # One of the roles of `done_job` is to trigger evaluation on `result`, in case it is
